@@ -385,6 +385,8 @@ def _hasattr(E, a, kw, fr, node):
     if isinstance(o, Ref) and E.cell(o)[0] == "obj" and isinstance(name, str):
         c = E.cell(o)
         return name in c[2] or find_method(E, c[1].key, name) is not None
+    if isinstance(o, Ref) and E.cell(o)[0] in ("dict", "pydict") and isinstance(name, str):
+        return name in ("get", "keys", "values", "items", "pop", "update", "clear", "setdefault", "popitem", "copy")
     raise Unsupported("hasattr(%r)" % (o,))
 
 
